@@ -138,21 +138,20 @@ def validateBlock (i : BlockIn) : Out :=
         else if !i.pubkeyKnown then ign q
         else if !(i.digestOk && i.sig) then rej q
         else
-          -- unchanged code: MarkBlock here, before the expected-proposer check
-          let m := [call "MarkBlock" [i.slot, i.proposer]]
-          let out (v : Verdict) : Out := { verdict := v, seen := q, marks := m }
           let targetEpoch := epochOf i.spe i.slot
           let parentEpoch := epochOf i.spe i.parentSlot
-          let cmp (p : UInt64) : Out := if p != i.proposer then out .REJECT else out .ACCEPT
+          -- MarkBlock only on ACCEPT (after the expected-proposer check)
+          let cmp (p : UInt64) : Out :=
+            if p != i.proposer then rej q else acc q [call "MarkBlock" [i.slot, i.proposer]]
           if parentEpoch == targetEpoch then
             match i.sameEpochProposer with
-            | none => out .IGNORE
+            | none => ign q
             | some p => cmp p
-          else if parentEpoch > targetEpoch then out .REJECT
-          else if !i.towards then out .IGNORE
-          else if !i.slotEpc then out .IGNORE
+          else if parentEpoch > targetEpoch then rej q
+          else if !i.towards then ign q
+          else if !i.slotEpc then ign q
           else match i.slotProposer with
-            | none => out .IGNORE
+            | none => ign q
             | some p => cmp p
 
 /-! ## beacon_attestation_{subnet_id} -/
@@ -200,7 +199,7 @@ def finCheck (blockIsFin : Bool) (finSub : Tri) (finEpoch targetEpoch : UInt64) 
     | .unk => some (ign q)
     | .no => some (ign q)
     | .yes => none
-  else if finEpoch > targetEpoch then some (rej q)   -- unchanged code: REJECT
+  else if finEpoch > targetEpoch then some (ign q)   -- stale vote for the finalized block: IGNORE
   else none
 
 def validateAttestation (i : AttIn) : Out :=
@@ -260,7 +259,7 @@ structure AggIn where
   bad : Bool
   /-- spec only: the block voted for is in the chain view -/
   blockKnown : Bool
-  /-- `InSubtree(target.root, beacon_block_root)` (not asked by the unchanged code) -/
+  /-- `InSubtree(target.root, beacon_block_root)` -/
   targetSub : Tri
   /-- spec only -/
   targetIsCkpt : Bool
@@ -282,7 +281,8 @@ structure AggIn where
   selSig : Bool
   /-- oracle: outer signature valid over `compute_signing_root(aggregate_and_proof, domain AGGREGATE_AND_PROOF)` -/
   outerSig : Bool
-  /-- oracle: outer signature valid over the FIRST TWO BYTES of that signing root (what the unchanged code checks) -/
+  /-- oracle: outer signature valid over the FIRST TWO BYTES of that signing root (what the code checked before
+  the repair `aa93b5d`; kept in the record so that a regression shows as model ≠ code with this bit set) -/
   outerSigTrunc : Bool
   /-- `MAX_VALIDATORS_PER_COMMITTEE` -/
   maxPerComm : Nat
@@ -314,7 +314,11 @@ def validateAggregate (i : AggIn) : Out :=
       if i.seenAggregate then ign q
       else if i.setBits.length < 1 then rej q
       else if i.bad then rej q
-      else match finCheck i.blockIsFin i.finSub i.finEpoch i.targetEpoch q with
+      else match i.targetSub with
+      | .unk => ign q
+      | .no => rej q
+      | .yes =>
+      match finCheck i.blockIsFin i.finSub i.finEpoch i.targetEpoch q with
         | some o => o
         | none =>
           if !i.towards then ign q
@@ -324,8 +328,7 @@ def validateAggregate (i : AggIn) : Out :=
             | none => ign q
             | some false => rej q
             | some true =>
-              -- unchanged code: blsu.Verify(pub, sigRoot[:2], sig)
-              if !i.outerSigTrunc then rej q
+              if !i.outerSig then rej q
               else if i.bitLen != i.committee.length then rej q
               else if i.setBits.length > i.maxPerComm then rej q
               else if !i.aggSig then rej q
@@ -493,9 +496,13 @@ def validateAttesterSlashing (i : ASlashIn) : Out :=
 
 /-! ## sync_committee_{subnet_id} -/
 
+/-- `gossipval.syncCommitteeForSlot`: the committee in charge at `slot` — the next one at the last slot of a period -/
+def syncCommitteeForSlot {α} (spe epp slot : UInt64) (cur next : α) : α :=
+  if epochOf spe slot / epp == epochOf spe (slot + 1) / epp then cur else next
+
 structure SyncMsgIn where
   spe : UInt64
-  /-- `EPOCHS_PER_SYNC_COMMITTEE_PERIOD` (spec only) -/
+  /-- `EPOCHS_PER_SYNC_COMMITTEE_PERIOD` -/
   epp : UInt64
   syncSize : UInt64
   slot : UInt64
@@ -508,7 +515,7 @@ structure SyncMsgIn where
   epc : Bool
   /-- validator indices of `state.current_sync_committee` at `(block, slot)` -/
   curCommittee : List UInt64
-  /-- spec only: validator indices of `state.next_sync_committee` -/
+  /-- validator indices of `state.next_sync_committee` -/
   nextCommittee : List UInt64
   seen : Bool
   nVals : UInt64
@@ -517,18 +524,19 @@ structure SyncMsgIn where
   deriving Repr
 
 def validateSyncMessage (i : SyncMsgIn) : Out :=
-  -- unchanged code: span 1
-  if !slotSpanOk i.minSlot i.maxSlot i.slot 1 then ign
+  if !slotSpanOk i.minSlot i.maxSlot i.slot 0 then ign
   else if !i.blockKnown then ign
   else if !i.epc then ign
-  else if !inSubnet i.syncSize i.curCommittee i.vindex i.subnet then rej
+  else
+  let committee := syncCommitteeForSlot i.spe i.epp i.slot i.curCommittee i.nextCommittee
+  if !inSubnet i.syncSize committee i.vindex i.subnet then rej
   else
     let q := [call "SeenSyncCommMsg" [i.vindex, i.slot, i.subnet]]
     if i.seen then ign q
     else if !(i.vindex < i.nVals) then rej q
     else if !i.domainOk then rej q
     else if !i.sig then rej q
-    else acc q [call "MarkSyncCommMsg" [i.vindex, i.slot, i.subnet]] i.curCommittee
+    else acc q [call "MarkSyncCommMsg" [i.vindex, i.slot, i.subnet]] committee
 
 /-! ## sync_committee_contribution_and_proof -/
 
@@ -555,22 +563,20 @@ structure ContribIn where
   selSig : Bool
   /-- oracle: outer signature valid over the `ContributionAndProof` -/
   outerSig : Bool
-  /-- oracle: contribution signature valid for the participating keys of the CURRENT committee's subcommittee
-  (the keys the code aggregates) over the block root -/
-  contribSig : Bool
-  /-- spec only: the same for the subcommittee of the committee in charge at `slot + 1` -/
-  contribSigSpec : Bool
+  /-- oracle: contribution signature valid for the participating keys of the subcommittee of the CURRENT /
+  NEXT sync committee over the block root -/
+  contribSigCur : Bool
+  contribSigNext : Bool
   deriving Inhabited
 
 def validateContribution (i : ContribIn) : Out :=
-  -- unchanged code: span 1
-  if !slotSpanOk i.minSlot i.maxSlot i.slot 1 then ign
+  if !slotSpanOk i.minSlot i.maxSlot i.slot 0 then ign
   else if i.subIdx ≥ SYNC_COMMITTEE_SUBNET_COUNT then rej
   else if i.ones == 0 then rej
   else if !isSyncAggregator i.syncSize i.selProof then rej
   else if !i.blockKnown then ign
   else if !i.epc then ign
-  else match subcommittee i.syncSize i.curCommittee i.subIdx with
+  else match subcommittee i.syncSize (syncCommitteeForSlot i.spe i.epp i.slot i.curCommittee i.nextCommittee) i.subIdx with
     | none => rej
     | some indices =>
       if !indices.contains i.aggregator then rej
@@ -581,7 +587,7 @@ def validateContribution (i : ContribIn) : Out :=
         else if !(i.aggregator < i.nVals) then rej q
         else if !i.selSig then rej q
         else if !i.outerSig then rej q
-        else if !i.contribSig then rej q
+        else if !syncCommitteeForSlot i.spe i.epp i.slot i.contribSigCur i.contribSigNext then rej q
         else acc q [call "MarkContribution" [i.aggregator, i.slot, i.subIdx]] indices
 
 end Zrnt.Gossip
